@@ -12,7 +12,7 @@ import math
 import numpy as _np
 import z3
 
-from .engine import Engine, PathAbort
+from .engine import Engine, PathAbort, real_val
 from .values import SV, lift
 
 
@@ -39,6 +39,27 @@ def _ax(eng, kind, arg, res, increasing=True):
             eng.assume(z3.And(z3.Implies(arg < a2, res > r2), z3.Implies(arg > a2, res < r2),
                               z3.Implies(arg == a2, res == r2)))
     apps.append((arg, res))
+    for (c, lo, hi) in eng.uf_apps.get(kind + "$anchor", []):
+        _anchor_ax(eng, arg, res, c, lo, hi, increasing)
+
+
+def _anchor(kind, c, r, increasing=True):
+    """a concrete application f(c) = r (computed in floating point, so only known up to a few ulp) becomes an
+    anchor: later symbolic applications are ordered against it with that slack (sound over-approximation)."""
+    eng = Engine.cur
+    if eng is None or eng.concrete or not (math.isfinite(c) and math.isfinite(r)):
+        return
+    d = 0.0  # the model function agrees with the floating-point value at concrete arguments (see DESIGN 2.2)
+    eng.uf_apps.setdefault(kind + "$anchor", []).append((real_val(c), real_val(r - d), real_val(r + d)))
+    for (a2, r2) in eng.uf_apps.get(kind, []):
+        _anchor_ax(eng, a2, r2, real_val(c), real_val(r - d), real_val(r + d), increasing)
+
+
+def _anchor_ax(eng, arg, res, c, lo, hi, increasing):
+    if increasing:
+        eng.assume(z3.And(z3.Implies(arg < c, res <= hi), z3.Implies(arg > c, res >= lo), z3.Implies(arg == c, z3.And(res >= lo, res <= hi))))
+    else:
+        eng.assume(z3.And(z3.Implies(arg < c, res >= lo), z3.Implies(arg > c, res <= hi), z3.Implies(arg == c, z3.And(res >= lo, res <= hi))))
 
 
 def s_log(x):
@@ -55,7 +76,9 @@ def s_log(x):
         eng.assume(z3.And(z3.Implies(x.e == 1, r == 0), z3.Implies(x.e > 1, r > 0), z3.Implies(x.e < 1, r < 0)))
         return SV(r)
     with _np.errstate(all="ignore"):
-        return float(_np.log(_np.float64(x)))
+        r = float(_np.log(_np.float64(x)))
+    _anchor("log", float(x), r)
+    return r
 
 
 def s_exp(x):
@@ -68,7 +91,9 @@ def s_exp(x):
         eng.assume(z3.And(r > 0, z3.Implies(x.e == 0, r == 1), z3.Implies(x.e > 0, r > 1), z3.Implies(x.e < 0, r < 1)))
         return SV(r)
     with _np.errstate(all="ignore"):
-        return float(_np.exp(_np.float64(x)))
+        r = float(_np.exp(_np.float64(x)))
+    _anchor("exp", float(x), r)
+    return r
 
 
 def s_erfc(x):
